@@ -1555,6 +1555,77 @@ func lex4(c *Ctx) {
 			c.Check(!free, key+":delimited", cv.Pos(), "after a short option name the scan resumes only if the next byte is not '-' (or the input ends)",
 				"after this short option token the scan can resume without testing that the next byte is not '-': `-a-b` would be accepted")
 		}
+		// `=<text>`: the text is free: in the case selected by '=' the bytes of the input are tested
+		// against '<' and '>' only (no character class decides where the annotation ends)
+		isOptValue := false
+		for _, k := range kinds {
+			if k == "OptValue" {
+				isOptValue = true
+			}
+		}
+		if isOptValue {
+			var sel ssa.Value
+			for _, cd := range ir.DominatingConds(cv.Block()) {
+				if bo, isBo := cd.V.(*ssa.BinOp); isBo && bo.Op == token.EQL && cd.Want {
+					if k, isK := ir.ConstInt(bo.Y); isK && k == '=' {
+						sel = bo
+					}
+				}
+			}
+			bad := ""
+			if sel == nil {
+				bad = "the case is not selected by the byte '='"
+			} else {
+				isInputByte := func(v ssa.Value) bool {
+					ix, isIx := v.(*ssa.Index)
+					return isIx && m.isUsage(ix.X)
+				}
+				ir.Instrs(fn, func(in ssa.Instruction) {
+					if bad != "" || !ir.HoldsAt(sel, true, in.Block()) {
+						return
+					}
+					switch x := in.(type) {
+					case *ssa.BinOp:
+						if !isInputByte(x.X) && !isInputByte(x.Y) {
+							return
+						}
+						k, isK := ir.ConstInt(x.Y)
+						if !isK {
+							k, isK = ir.ConstInt(x.X)
+						}
+						if !isK || (x.Op != token.EQL && x.Op != token.NEQ) || (k != '<' && k != '>') {
+							bad = "a byte of the annotation is tested against something other than '<' or '>' at " + c.P.Pos(x.Pos())
+						}
+					case *ssa.Call:
+						for _, a := range x.Call.Args {
+							if !isInputByte(a) {
+								continue
+							}
+							// a class that tells '<' and '>' from the rest and nothing else is the same test
+							uniform := false
+							if g := ir.Static(x); g != nil && len(g.Params) == 1 {
+								uniform = true
+								first, have := false, false
+								for b := 0; b < 256 && uniform; b++ {
+									if b == '<' || b == '>' {
+										continue
+									}
+									r, okR := evalBytePred(g, []constant.Value{constant.MakeInt64(int64(b))}, 0)
+									if !okR || (have && r != first) {
+										uniform = false
+									}
+									first, have = r, true
+								}
+							}
+							if !uniform {
+								bad = "a byte of the annotation is handed to a character class at " + c.P.Pos(x.Pos())
+							}
+						}
+					}
+				})
+			}
+			c.Check(bad == "", key+":any-text", cv.Pos(), "inside `=<...>` only '<' and '>' are looked for: the text is free", bad)
+		}
 	}
 }
 
@@ -1805,5 +1876,39 @@ func lex6(c *Ctx) {
 		c.Check(bad == "", Q(f)+":ascii-ranges", f.Pos(), "a byte class defined only by comparisons of the byte with constants",
 			"the byte class is not a plain comparison of the byte with constants ("+bad+"): bytes outside ASCII could count as letters or digits")
 		c.Scope(mk2, "C08", "C18")
+	}
+	// the classes themselves, tabulated over all 256 bytes: the characters of argument names, of short
+	// and of long option names are the documented ones (confirmed on the pinned tree)
+	want := []struct {
+		name  string
+		flags []bool
+		class string
+		what  string
+	}{
+		{"isLowercase", nil, "a-z", "lower-case letters"},
+		{"isUppercase", nil, "A-Z", "upper-case letters (first byte of an argument name)"},
+		{"isDigit", nil, "0-9", "digits"},
+		{"isLetter", nil, "A-Za-z", "letters (short option names)"},
+		{"isOkInArg", nil, "0-9A-Z_", "bytes of an argument name after the first"},
+		{"isOkLongOpt", []bool{true}, "0-9A-Z_a-z", "first byte of a long option name"},
+		{"isOkLongOpt", []bool{false}, "-0-9A-Z_a-z", "later bytes of a long option name"},
+	}
+	for _, w := range want {
+		f := c.fnOpt("internal/lexer", w.name)
+		if f == nil || len(f.Params) != 1+len(w.flags) {
+			continue // the class was folded into something else: its uses are checked where they are (LEX-4)
+		}
+		key := Q(f) + ":class"
+		if len(w.flags) > 0 {
+			key += fmt.Sprintf("[%v]", w.flags[0])
+		}
+		got, ok := byteClass(f, w.flags...)
+		mk3 := len(c.Obs)
+		if !ok {
+			c.Undecided(key, f.Pos(), "the class cannot be tabulated (not a composition of comparisons with constants)")
+		} else {
+			c.Check(got == w.class, key, f.Pos(), "accepts exactly ["+w.class+"]: "+w.what, "accepts ["+got+"], expected ["+w.class+"] ("+w.what+")")
+		}
+		c.Scope(mk3, "C08", "C18")
 	}
 }
